@@ -86,6 +86,35 @@ pub mod io {
                 };
     }
 
+    // ---- std::io::Seek ----  file(): the whole underlying byte string (ghost); seeking past the end leaves nothing to read
+    pub enum SeekFrom { Start(u64), End(i64), Current(i64) }
+    pub trait Seek: Read {
+        spec fn file(&self) -> Seq<u8>;
+        fn seek(&mut self, pos: SeekFrom) -> (r: Result<u64>)
+            ensures final(self).file() == old(self).file(), final(self).budget() == old(self).budget(),
+                r.is_ok() ==> final(self).errored() == old(self).errored(),
+                r.is_err() ==> final(self).errored(),
+                pos matches SeekFrom::Start(p) ==> (r.is_ok() ==> r == Ok::<u64, Error>(p)
+                    && final(self).remaining() == old(self).file().subrange(
+                            if p <= old(self).file().len() { p as int } else { old(self).file().len() as int }, old(self).file().len() as int));
+    }
+
+    // ---- impl Read for &[u8] (std): copies min(len) bytes and advances the slice ----
+    impl<'a> Read for &'a [u8] {
+        open spec fn remaining(&self) -> Seq<u8> { self@ }
+        open spec fn budget(&self) -> nat { 0 }
+        open spec fn errored(&self) -> bool { false }
+        #[verifier::external_body]
+        fn read(&mut self, buf: &mut [u8]) -> (r: Result<usize>)
+            ensures r matches Ok(n) && n == (if old(buf)@.len() <= old(self)@.len() { old(buf)@.len() } else { old(self)@.len() })
+                && final(buf)@ == old(self)@.subrange(0, n as int) + old(buf)@.subrange(n as int, old(buf)@.len() as int)
+                && final(self)@ == old(self)@.subrange(n as int, old(self)@.len() as int)
+        { std::io::Read::read(self, buf).map_err(|_e| Error { k: ErrorKind::Other }) }
+        #[verifier::external_body]
+        fn read_exact(&mut self, buf: &mut [u8]) -> (r: Result<()>)
+        { std::io::Read::read_exact(self, buf).map_err(|_e| Error { k: ErrorKind::Other }) }
+    }
+
     // ---- std::io::BufRead ----
     // fill_buf returns a NON-EMPTY PREFIX OF ARBITRARY LENGTH of remaining() unless it is empty.
     pub trait BufRead: Read {
